@@ -4,6 +4,7 @@ import Katib.Drv.Status
 import Katib.Drv.Sim
 import Katib.Drv.C19
 import Katib.Drv.C15
+import Katib.Drv.C10
 import Katib.Oracle.Sim
 open Katib Katib.Drv
 
@@ -15,6 +16,7 @@ def handle (toks : List String) : String :=
   | "C03" :: r => handleStatus r
   | "C19" :: r => handleC19 r
   | "C15" :: r => handleC15 r
+  | "C10" :: r => handleC10 r
   | _ => "bad-op"
 
 /-- oracle verdict for one `op => observed-output` line -/
@@ -25,6 +27,7 @@ def handleOracle (toks out : List String) : String :=
   | "C03" :: r => oracleLineStatus "C03" r out
   | "C19" :: r => oracleLineC19 r out
   | "C15" :: r => oracleLineC15 r out
+  | "C10" :: r => oracleLineC10 r out
   | _ => "bad-op"
 
 def splitArrow (toks : List String) : List String × List String :=
